@@ -11,6 +11,7 @@ import (
 	"fmt"
 	"io"
 	"net"
+	"os"
 	"runtime"
 	"strings"
 	"sync"
@@ -296,6 +297,31 @@ type ScriptIface struct {
 // ErrHandlerFail is what a script's "fail" action returns.
 var ErrHandlerFail = errors.New("scripted handler failure")
 
+// failError: whatever error value a handler returns, the connection must end. op.S selects the kind.
+func failError(kind string) error {
+	switch kind {
+	case "deadline":
+		return context.DeadlineExceeded
+	case "canceled":
+		return context.Canceled
+	case "eof":
+		return io.EOF
+	case "unexpected-eof":
+		return io.ErrUnexpectedEOF
+	case "net-timeout":
+		return &net.OpError{Op: "read", Net: "unix", Err: timeoutErr{}}
+	case "os-deadline":
+		return os.ErrDeadlineExceeded
+	case "closed":
+		return net.ErrClosed
+	case "wrapped":
+		return fmt.Errorf("handler: %w", context.DeadlineExceeded)
+	}
+	return ErrHandlerFail
+}
+
+var failKinds = []string{"", "", "deadline", "canceled", "eof", "unexpected-eof", "net-timeout", "os-deadline", "closed", "wrapped"}
+
 func errStr(err error) string {
 	if err == nil {
 		return ""
@@ -368,7 +394,7 @@ func (s *ScriptIface) VarlinkDispatch(ctx context.Context, c varlink.Call, metho
 			res, err = s.doIO(ctx, &c, op)
 		case "fail":
 			record(OpResult{Err: "fail"})
-			return finish(ErrHandlerFail)
+			return finish(failError(op.S))
 		default:
 			if s.Hook != nil {
 				res, err = s.Hook(ctx, &c, op)
